@@ -152,8 +152,21 @@ class VpC15Top(Serializable):
     both: Tuple[VpC15Tuples, VpC15Sets] = None
 
 
+class VpC15Defaults(Serializable):
+    """container fields whose class-level default is a non-empty container (the class docstring of Serializable shows
+    `position: Tuple[int, int] = (0, 0)`): whatever the constructor makes of the default, a record must come back as it was
+    written - not merged with the default, not sharing one container between instances"""
+    li: List[int] = [7, 8]
+    ss: Set[str] = {"x", "y"}
+    di: Dict[str, int] = {"k": 1}
+    ic: Dict[int, VpC15Color] = {3: VpC15Color.GREEN}
+    t2: Tuple[int, int] = (0, 0)
+    lo: List[VpC15Basic] = [VpC15Basic()]
+    name: str = "dflt"
+
+
 ENUM_LIST = (VpC15Color, VpC15Mode, VpC15Rot)
-CLASS_LIST = (VpC15Basic, VpC15Pair, VpC15Lists, VpC15Sets, VpC15Tuples, VpC15Dicts, VpC15Top)
+CLASS_LIST = (VpC15Basic, VpC15Pair, VpC15Lists, VpC15Sets, VpC15Tuples, VpC15Dicts, VpC15Top, VpC15Defaults)
 # register with c13's spec builder
 c13.ENUMS.update({c.__name__: c for c in ENUM_LIST})
 c13.ENUM_MEMBERS.update({"VpC15Color": ["RED", "GREEN", "BLUE", "DARK_BLUE", "C_5", "NEGATIVE"],
@@ -539,7 +552,7 @@ def obj_strategy(name):
     return _OBJ_CACHE[name]
 
 
-TOP_CLASSES = ["VpC15Basic", "VpC15Pair", "VpC15Lists", "VpC15Sets", "VpC15Tuples", "VpC15Dicts", "VpC15Top"]
+TOP_CLASSES = ["VpC15Basic", "VpC15Pair", "VpC15Lists", "VpC15Sets", "VpC15Tuples", "VpC15Dicts", "VpC15Top", "VpC15Defaults"]
 
 
 # ----------------------------------------------------------------------------- plan / shards
@@ -547,14 +560,14 @@ def plan(tier):
     specs = []
     if tier == "quick":
         n = {"VpC15Basic": 3000, "VpC15Pair": 3500, "VpC15Lists": 4500, "VpC15Sets": 4500, "VpC15Tuples": 4500,
-             "VpC15Dicts": 3500, "VpC15Top": 1500}
+             "VpC15Dicts": 3500, "VpC15Top": 1500, "VpC15Defaults": 2500}
         for name in TOP_CLASSES:
             reps = 4 if name == "VpC15Top" else 2
             for i in range(reps):
                 specs.append({"part": "json", "cls": name, "n": n[name], "i": i})
     else:
         n = {"VpC15Basic": 40000, "VpC15Pair": 30000, "VpC15Lists": 30000, "VpC15Sets": 30000, "VpC15Tuples": 30000,
-             "VpC15Dicts": 25000, "VpC15Top": 8000}
+             "VpC15Dicts": 25000, "VpC15Top": 8000, "VpC15Defaults": 20000}
         for name in TOP_CLASSES:
             reps = 8 if name == "VpC15Top" else 4
             for i in range(reps):
